@@ -298,6 +298,15 @@ Definition MIN_TIMEOUT : N := 300000000.
 Definition MAX_TIMEOUT : N := 2000000000.
 Definition clamp_timeout (t : N) : N := N.max (N.min t MAX_TIMEOUT) MIN_TIMEOUT.
 
+(* the update of the global estimate when a query that needed more than one attempt is
+   answered (outquery.rs:515-555): [initial] = the value the query started with, [cur] = the
+   value now, [dur] = how long the winning attempt took, [attempts] = attempts outstanding *)
+Definition adapt (initial cur dur attempts : N) : N :=
+  if attempts <=? 1 then cur
+  else if dur <? initial
+       then (if dur <=? cur then clamp_timeout ((dur * 10 + cur * 990) / 1000) else cur)
+       else clamp_timeout (N.max cur (dur * 100)).     (* dur * (BASE + HEADROOM/BASE), integer division *)
+
 (* ===================================================================== *)
 (* (iii) Accept, and the composition                                     *)
 (* ===================================================================== *)
